@@ -2,25 +2,27 @@
 (* The contract layer: for every call of the single-arena families, the set of
    admitted outcomes, the named deviations (known findings) and the judge that
    attributes a non-conforming observation to the properties it violates. *)
-EXTENDS StrCopy, MemOps
+EXTENDS StrCopy, MemOps, StrXform
 
 Outcomes(e) ==
   CASE e.fn \in StrCopyFns \ FldFns -> StrCopyOutcomes(e)
     [] e.fn \in MemOpsFns -> MemOpsOutcomes(e)
+    [] e.fn \in StrXformFns -> StrXformOutcomes(e)
     [] OTHER -> {}
 
 Deviations(e) ==
   CASE e.fn \in StrCopyFns \ FldFns -> StrCopyDeviations(e)
     [] e.fn \in MemOpsFns -> MemOpsDeviations(e)
+    [] e.fn \in StrXformFns -> StrXformDeviations(e)
     [] OTHER -> {}
 
-Known(e) == e.fn \in (StrCopyFns \ FldFns) \cup MemOpsFns
+Known(e) == e.fn \in (StrCopyFns \ FldFns) \cup MemOpsFns \cup StrXformFns
 
 (* functional property of the family the function belongs to *)
 Func(fn) == "C06"
 
-ProducesString(fn) == fn \in (StrCopyFns \ {"strcpyfld_s", "strcpyfldin_s"})
-InPlaceString(fn) == fn \in StrFillFns      \* transforms of an existing string: the terminator must survive
+ProducesString(fn) == fn \in (StrCopyFns \ {"strcpyfld_s", "strcpyfldin_s"}) \cup {"strnterminate_s"}
+InPlaceString(fn) == fn \in StrFillFns \cup (StrXformFns \ {"strnterminate_s"})      \* transforms of an existing string: the terminator must survive
 CopyLike(fn) == fn \in StrCopyFns \cup MemCpyFns \cup MemMoveFns \cup {"memccpy_s"}
 NoOpByDoc(e) == \/ (e.fn \in {"strcpy_s", "wcscpy_s"} /\ e.d = e.s)
                 \/ (e.fn \in StpFns /\ e.flags = 1)
